@@ -55,6 +55,18 @@ class RespSub(Resp):
     pass
 
 
+def _twin() -> type:
+    class Resp(Event):  # noqa: F811 - an unrelated class that merely has the same module and __name__ (factory-made / nested classes)
+        uid: int = 0
+        key: str = ""
+
+    return Resp
+
+
+RespTwin = _twin()
+assert RespTwin is not Resp and (RespTwin.__module__, RespTwin.__name__) == (Resp.__module__, Resp.__name__)
+
+
 class Ask(InputRequiredEvent):
     uid: int = 0
 
